@@ -41,6 +41,9 @@ type NegativeBinomialDistribution struct {
 /* -------------------------------------------------------------------------- */
 
 func NewNegativeBinomialDistribution(r, p Scalar) (*NegativeBinomialDistribution, error) {
+  if math.IsNaN(r.GetFloat64()) || math.IsNaN(p.GetFloat64()) {
+    return nil, fmt.Errorf("invalid parameters")
+  }
   if r.GetFloat64() <= 0.0 || p.GetFloat64() < 0.0 || p.GetFloat64() > 1.0 {
     return nil, fmt.Errorf("invalid parameters")
   }
